@@ -76,7 +76,7 @@ def run(name, props):
     try:
         for p in props:
             t = time.time()
-            rc, out = sh("./check %s --tier quick" % p, cwd=ROOT, timeout=3000)
+            rc, out = sh("VERIF_EVIDENCE_DIR=%s ./check %s --tier quick" % (os.path.join(ROOT, ".work", "seed-evidence"), p), cwd=ROOT, timeout=3000)
             viol = [l for l in out.splitlines() if l.startswith("VIOLATION")]
             detail = [l.strip() for l in out.splitlines() if l.startswith("    ")][:3]
             meta["checks"][p] = {"exit": rc, "violations": len(viol), "detected": rc == 1, "first": detail[:2], "wall_s": round(time.time() - t, 1)}
